@@ -7,16 +7,13 @@ field `grow : Nat → Nat` (`grow c = (size_t)(c * exp_factor)`), **arbitrary** 
 Abstract spec: `List Nat` with the list functions of `Spec/SeqSpec.lean`.
 
 Quantifiers: every state satisfying the representation invariant `Arr.Inv`
-(`size ≤ capacity ≤ allocated slots`, `1 ≤ capacity ≤ CC_MAX_ELEMENTS`), every element value
+(`size ≤ capacity ≤ allocated slots`, `1 ≤ capacity ≤ CC_MAX_ELEMENTS / sizeof(void*)`), every element value
 (0 = NULL, duplicates), every index in the whole `Nat` domain, every growth function, every callback,
 every finite history, every allocator schedule (refusals included).
 
 Hypotheses used, all documented preconditions:
 * `0 < m.live` — the ledger knows at least the blocks of the array itself (needed only to state that
   the `free` inside a re-allocation does not fault);
-* `hg : ∀ c, a.grow c ≤ CC_MAX_ELEMENTS` — only for *invariant preservation across growth steps*:
-  the C cast `(size_t)(float)` is defined only below 2^64 and the largest such float is 2^64 − 2^40.
-  No content statement depends on it;
 * `hsort` — the assumed `qsort` returns a list of the same length (every permutation does; C18). -/
 namespace CC.Properties.C01
 open CC
@@ -32,7 +29,7 @@ theorem step_refines (cfg : Cfg) (a : Arr) (op : Op) (m : Mem) (hinv : a.Inv) (h
     (a.step cfg op m).1 = (Spec.Seq.step cfg a.abs op (a.step cfg op m).1.blocked).1 ∧
     (a.step cfg op m).2.1.abs = (Spec.Seq.step cfg a.abs op (a.step cfg op m).1.blocked).2 ∧
     (a.step cfg op m).2.1.grow = a.grow ∧
-    (a.grow a.capacity ≤ Gen.CC_MAX_ELEMENTS → (a.step cfg op m).2.1.Inv) ∧
+    (a.step cfg op m).2.1.Inv ∧
     (a.step cfg op m).2.2.live = m.live ∧ (a.step cfg op m).2.2.fault = m.fault ∧
     (∀ st, (a.step cfg op m).1.st = some st → st ≠ .ok → (a.step cfg op m).2.1 = a) :=
   Arr.step_spec cfg a op m hinv hlive hsort
@@ -42,7 +39,7 @@ yields exactly the reports of the ideal list run on the same history (the ideal 
 which calls were blocked), ends in a state whose content is the ideal list's content, preserves
 the invariant, keeps the ledger balanced and never faults. -/
 theorem history_refines (cfg : Cfg) (ops : List Op) (a : Arr) (m : Mem) (hinv : a.Inv) (hlive : 0 < m.live)
-    (hg : ∀ c, a.grow c ≤ Gen.CC_MAX_ELEMENTS) (hsort : ∀ xs, (cfg.sortFn xs).length = xs.length) :
+    (hsort : ∀ xs, (cfg.sortFn xs).length = xs.length) :
     (a.run cfg ops m).1 = (Spec.Seq.run cfg a.abs ops ((a.run cfg ops m).1.map Out.blocked)).1 ∧
     (a.run cfg ops m).2.1.abs = (Spec.Seq.run cfg a.abs ops ((a.run cfg ops m).1.map Out.blocked)).2 ∧
     (a.run cfg ops m).2.1.Inv ∧ (a.run cfg ops m).2.1.grow = a.grow ∧
@@ -51,7 +48,7 @@ theorem history_refines (cfg : Cfg) (ops : List Op) (a : Arr) (m : Mem) (hinv : 
   | nil => exact ⟨rfl, rfl, hinv, rfl, rfl, rfl⟩
   | cons op ops ih =>
     obtain ⟨s1, s2, s3, s4, s5, s6, _⟩ := step_refines cfg a op m hinv hlive hsort
-    have ih' := ih (a.step cfg op m).2.1 (a.step cfg op m).2.2 (s4 (hg _)) (by omega) (by rw [s3]; exact hg)
+    have ih' := ih (a.step cfg op m).2.1 (a.step cfg op m).2.2 s4 (by omega)
     obtain ⟨i1, i2, i3, i4, i5, i6⟩ := ih'
     simp only [Arr.run, Spec.Seq.run, List.map_cons, List.headD_cons, List.tail_cons]
     rw [← s2]
@@ -61,11 +58,11 @@ theorem history_refines (cfg : Cfg) (ops : List Op) (a : Arr) (m : Mem) (hinv : 
 /-- **C01 on unblocked histories**: when no call of the history was blocked by the allocator or
 the capacity limit, the concrete array is observationally the ideal list, with nothing else to say. -/
 theorem history_ideal (cfg : Cfg) (ops : List Op) (a : Arr) (m : Mem) (hinv : a.Inv) (hlive : 0 < m.live)
-    (hg : ∀ c, a.grow c ≤ Gen.CC_MAX_ELEMENTS) (hsort : ∀ xs, (cfg.sortFn xs).length = xs.length)
+    (hsort : ∀ xs, (cfg.sortFn xs).length = xs.length)
     (hfree : ∀ o ∈ (a.run cfg ops m).1, o.blocked = none) :
     (a.run cfg ops m).1 = (Spec.Seq.run cfg a.abs ops (List.replicate ops.length none)).1 ∧
     (a.run cfg ops m).2.1.abs = (Spec.Seq.run cfg a.abs ops (List.replicate ops.length none)).2 := by
-  have h := history_refines cfg ops a m hinv hlive hg hsort
+  have h := history_refines cfg ops a m hinv hlive hsort
   have hlen : (a.run cfg ops m).1.length = ops.length := Arr.run_length cfg ops a m
   have : (a.run cfg ops m).1.map Out.blocked = List.replicate ops.length none := by
     rw [← hlen]
@@ -79,9 +76,10 @@ theorem history_ideal (cfg : Cfg) (ops : List Op) (a : Arr) (m : Mem) (hinv : a.
 
 /-- **Appends succeed whenever the allocator does not refuse** (the repaired progress guarantee,
 A7): `add` can only be blocked on an exactly full array, and then only by a refusing allocator or
-at `capacity = CC_MAX_ELEMENTS`.  No assumption on the growth function. -/
+at the capacity limit (`Arr.AtLimit`: the requested capacity would need more than `CC_MAX_ELEMENTS`
+bytes, A10).  No assumption on the growth function. -/
 theorem add_succeeds (a : Arr) (x : Nat) (m : Mem) (hinv : a.Inv) (hlive : 0 < m.live)
-    (halloc : a.size = a.capacity → m.alloc.1 = true) (hmax : a.capacity ≠ Gen.CC_MAX_ELEMENTS) :
+    (halloc : a.size = a.capacity → m.alloc.1 = true) (hmax : ¬ a.AtLimit) :
     (a.add x m).1 = .ok ∧ (a.add x m).2.1.abs = a.abs ++ [x] := by
   rcases (Arr.add_spec a x m hinv hlive).1 with ⟨ok, habs, _⟩ | ⟨⟨hb, hfull⟩, _⟩
   · exact ⟨ok, habs⟩
@@ -91,7 +89,7 @@ theorem add_succeeds (a : Arr) (x : Nat) (m : Mem) (hinv : a.Inv) (hlive : 0 < m
 
 /-- the same for `add_at` at every legal position -/
 theorem addAt_succeeds (a : Arr) (x i : Nat) (m : Mem) (hinv : a.Inv) (hlive : 0 < m.live) (hi : i ≤ a.size)
-    (halloc : a.size = a.capacity → m.alloc.1 = true) (hmax : a.capacity ≠ Gen.CC_MAX_ELEMENTS) :
+    (halloc : a.size = a.capacity → m.alloc.1 = true) (hmax : ¬ a.AtLimit) :
     (a.addAt x i m).1 = .ok ∧ (a.addAt x i m).2.1.abs = a.abs.insertIdx i x := by
   rcases (Arr.addAt_spec a x i m hinv hlive).1 with ⟨_, sp⟩ | ⟨hgt, _⟩
   · rcases sp with ⟨ok, habs, _⟩ | ⟨⟨hb, hfull⟩, _⟩
@@ -122,7 +120,7 @@ capacity the constructor accepts and any expansion factor behaves like the ideal
 empty. -/
 theorem new_history_refines (cfg : Cfg) (cap : Nat) (grow : Nat → Nat) (exGe : Nat → Bool) (m0 : Mem)
     (a0 : Arr) (hnew : (Arr.new cap grow exGe m0).2.1 = some a0) (ops : List Op)
-    (hg : ∀ c, grow c ≤ Gen.CC_MAX_ELEMENTS) (hsort : ∀ xs, (cfg.sortFn xs).length = xs.length) :
+    (hsort : ∀ xs, (cfg.sortFn xs).length = xs.length) :
     let m1 := (Arr.new cap grow exGe m0).2.2
     (a0.run cfg ops m1).1 = (Spec.Seq.run cfg [] ops ((a0.run cfg ops m1).1.map Out.blocked)).1 ∧
     (a0.run cfg ops m1).2.1.abs = (Spec.Seq.run cfg [] ops ((a0.run cfg ops m1).1.map Out.blocked)).2 ∧
@@ -136,7 +134,7 @@ theorem new_history_refines (cfg : Cfg) (cap : Nat) (grow : Nat → Nat) (exGe :
     simp only [Option.some.injEq] at hnew
     subst hnew
     have := history_refines cfg ops r m1 h3 (by show 0 < (Arr.new cap grow exGe m0).2.2.live; omega)
-      (by rw [h5]; exact hg) hsort
+      hsort
     rw [h2] at this
     obtain ⟨t1, t2, t3, _, t5, t6⟩ := this
     exact ⟨t1, t2, t3, by rw [t5]; exact h6, by rw [t6]; exact h7⟩
